@@ -62,7 +62,7 @@ INTEGER_decode_oer(const asn_codec_ctx_t *opt_codec_ctx,
         size_t useful_size;
 
         /* Check most significant bit */
-        msb = *(const uint8_t *)ptr >> 7; /* yields 0 or 1 */
+        msb = req_bytes ? (*(const uint8_t *)ptr >> 7) : 0; /* yields 0 or 1 */
         useful_size = msb + req_bytes;
         st->buf = (uint8_t *)MALLOC(useful_size + 1);
         if(!st->buf) {
